@@ -495,7 +495,7 @@ def gen_cases(rng, tier):
     # ---- addresses (cheap): every network, both forms
     for nw in names:
         for c in (True, False):
-            for k in [1, CN - 1] + [rand_secret(rng) for _ in range(30 if big else 3)]:
+            for k in [1, CN - 1] + [rand_secret(rng) for _ in range(30 if big else 2)]:
                 add('addr', 'addr %s %s %d %d' % (nw, hx(nws[nw]), 1 if c else 0, k))
 
     # ---- plain mode: encrypt, decrypt with the right / a wrong passphrase, right / wrong / no network
@@ -615,7 +615,7 @@ def gen_cases(rng, tier):
             return out
         return build
     for i, pl in enumerate(inter_plans):
-        heavy.append(ec(*pl, n_new=(30 if big else 6) if i < 6 else (12 if big else 2),
+        heavy.append(ec(*pl, n_new=(30 if big else 4) if i < 6 else (12 if big else 2),
                         n_dec=(3 if i < 4 else 1) if not big else 4, extras=big or i < 6))
     # invalid arguments of the generating functions (cheap)
     for lot, seq, salt in ((99999, 1, salts8[0]), (1000000, 1, salts8[0]), (100000, 4096, salts8[0]), (100000, -1, salts8[0]),
@@ -634,7 +634,7 @@ def gen_cases(rng, tier):
     for nw in names:
         for c in (0, 1):
             add('new', 'new %s %s %s %d %s' % (nw, hx(nws[nw]), shex(good_ip), c, seed0))
-    for _ in range(1500 if big else 60):
+    for _ in range(1500 if big else 30):
         add('new', 'new %s %s %s %d %s' % ('bitcoin', '00', shex(good_ip), rng.randrange(2), rng.randbytes(24).hex()))
 
     with ThreadPoolExecutor(12) as ex:
